@@ -191,7 +191,7 @@ func family(seed int64, tier string) []*job {
 	}
 	n = 8
 	if tier == "thorough" {
-		n = 90
+		n = 60
 	}
 	for i := 0; i < n; i++ {
 		jobs = append(jobs, newJob(GenerateThird(hx.Rng(seed, fmt.Sprintf("c12-third%d", i)))))
@@ -339,7 +339,7 @@ func namesOf(jobs []*job) []string {
 
 func Run(cfg Config) *hx.Result {
 	r := hx.NewResult("C12", cfg.Module, cfg.Seed, cfg.Tier)
-	r.Rule = "manifests derived from the seed by a schema/resource grammar (records with required/optional/defaulted fields of every type, include chains, enums with mangled symbols, fixed, typerefs over every primitive incl. custom ones, unions, complex keys; 2-4 namespaces forming a DAG, a DAG plus one closed two-namespace cycle reaching repeated type names, or (20%) references in any direction; collection/simple/action-set resources with sub-resources, every REST method, finders, actions, readOnly/createOnly) plus a full-coverage manifest, an every-initial-letter manifest and the known-defect probes; each manifest goes through the real generator in N fresh processes (different GOMAXPROCS/GOGC/locale), the output trees are compared byte for byte, built and vetted against the repository module; a manifest is counted as a program when all of that succeeds; distinct by manifest hash. ExportedIdentifier: all names used by the family, every single byte, all strings up to length 3 (4 thorough) over [azAZ09_$ -.DEL], random concatenations of the mangling prefixes; non-trivial = output differs from input"
+	r.Rule = "manifests derived from the seed by a schema/resource grammar (records with required/optional/defaulted fields of every type, include chains, enums with mangled symbols, fixed, typerefs over every primitive incl. custom ones, unions, complex keys; 2-4 namespaces forming a DAG, a DAG plus one closed two-namespace cycle reaching repeated type names, or (20%) references in any direction; a family of namespace cycles closed through a third type (ns1.A -> ns2.B -> ns1.C, no back reference: entered from a record field, array/map element, union member, include or complex key, through two or three namespaces, fixed shapes plus grammar-made ones); collection/simple/action-set resources with sub-resources, every REST method, finders, actions, readOnly/createOnly) plus a full-coverage manifest, an every-initial-letter manifest and the known-defect probes; each manifest goes through the real generator in N fresh processes (different GOMAXPROCS/GOGC/locale), the output trees are compared byte for byte, and every process' output (each distinct tree) is built and vetted against the repository module; a manifest is counted as a program when all of that succeeds; distinct by manifest hash. ExportedIdentifier: all names used by the family, every single byte, all strings up to length 3 (4 thorough) over [azAZ09_$ -.DEL], random concatenations of the mangling prefixes; non-trivial = output differs from input"
 
 	if len(cfg.Replay) > 0 {
 		replay(cfg, r)
